@@ -170,6 +170,14 @@ Definition rec_ok (now : Z) (r : record) : Prop :=
 Definition del_ready (recs : list record) (run : N) : Prop :=
   exists p, find_first (by_run run) recs = Some p /\ (r_state p = RSReqDataDeleted \/ r_state p = RSDataDeleted).
 
+(* the outbox entry written with the k-th committed Store, and an event carrying an entry's content *)
+Definition entry_at (hist : list record) (o : oentry) : Prop :=
+  exists r, nth_error hist (N.to_nat (o_id o) - 1) = Some r /\ o = route (o_id o) r /\ (1 <= o_id o)%N.
+Definition ev_of (e : event) (o : oentry) : Prop :=
+  e_wf e = o_wf o /\ e_topic e = o_topic o /\ e_run e = o_run o /\ e_fid e = o_fid o /\ e_type e = o_type o /\
+  e_state e = o_state o /\ e_ver e = o_ver o.
+Definition published (w : world) (r : record) : Prop := exists e, In e (w_log w) /\ ev_of e (route 0%N r).
+
 Record WI (w : world) : Prop := mkWI {
   wi_nodup : NoDup (map r_run (w_recs w));
   wi_lt : forall r, In r (w_recs w) -> (r_run r < w_nrun w)%N;
@@ -177,13 +185,22 @@ Record WI (w : world) : Prop := mkWI {
   wi_del_log : forall e, In e (w_log w) -> e_topic e = TDelete -> del_ready (w_recs w) (e_run e);
   wi_del_out : forall o, In o (w_outbox w) -> o_topic o = TDelete -> del_ready (w_recs w) (o_run o);
   (* an event a consumer holds while it waits for the consume lag is an event of its topic in the log *)
-  wi_lag : forall p idx e d, In (p, PLag idx e d) (w_procs w) -> In e (w_log w) /\ e_topic e = unit_topic (snd p)
+  wi_lag : forall p idx e d, In (p, PLag idx e d) (w_procs w) -> In e (w_log w) /\ e_topic e = unit_topic (snd p);
+  (* C05: entry IDs number the committed writes; every outbox entry and every event stems from a write; every write is
+     still in the outbox or has been published *)
+  wi_noid : w_noid w = (N.of_nat (length (w_hist w)) + 1)%N;
+  wi_out : forall o, In o (w_outbox w) -> entry_at (w_hist w) o;
+  wi_logh : forall e, In e (w_log w) -> exists r, In r (w_hist w) /\ ev_of e (route 0%N r);
+  wi_pub : forall k r, nth_error (w_hist w) k = Some r -> In (route (N.of_nat k + 1)%N r) (w_outbox w) \/ published w r
 }.
 
 Lemma WI_frame (w w' : world) :
   w_recs w' = w_recs w -> w_nrun w' = w_nrun w -> w_now w' = w_now w -> w_log w' = w_log w -> w_outbox w' = w_outbox w ->
-  w_procs w' = w_procs w -> WI w -> WI w'.
-Proof. intros E1 E2 E3 E4 E5 E6 [H1 H2 H3 H4 H5 H6]. constructor; rewrite ?E1, ?E2, ?E3, ?E4, ?E5, ?E6; assumption. Qed.
+  w_procs w' = w_procs w -> w_hist w' = w_hist w -> w_noid w' = w_noid w -> WI w -> WI w'.
+Proof.
+  intros E1 E2 E3 E4 E5 E6 E7 E8 [H1 H2 H3 H4 H5 H6 H7 H8 H9 H10].
+  constructor; unfold published in *; rewrite ?E1, ?E2, ?E3, ?E4, ?E5, ?E6, ?E7, ?E8; assumption.
+Qed.
 
 Definition nostale (p : plan) : Prop := forall k o, plan_at p k o <> FStale.
 
@@ -271,6 +288,18 @@ Proof.
       * exists p. split; [|exact Hs]. rewrite upsert_find_other; assumption.
     + exists r'. split; [cbn; apply upsert_find_same, Hnd|]. left. eapply route_topic_delete, Ht.
   - apply (wi_lag w HW).
+  - rewrite app_length. cbn. rewrite (wi_noid w HW). lia.
+  - intros o Ho. apply in_app_or in Ho as [Ho|[<-|[]]].
+    + destruct (wi_out w HW o Ho) as (x & Hx & Ex & Hle). exists x. split; [|split; assumption].
+      rewrite nth_error_app1; [exact Hx|]. apply nth_error_Some. congruence.
+    + exists r'. cbn. rewrite (wi_noid w HW). split; [|split; [reflexivity|lia]].
+      replace (N.to_nat (N.of_nat (length (w_hist w)) + 1) - 1)%nat with (length (w_hist w)) by lia.
+      rewrite nth_error_app2 by lia. now rewrite Nat.sub_diag.
+  - intros e He. destruct (wi_logh w HW e He) as (x & Hx & Ex). exists x. split; [apply in_or_app; now left|exact Ex].
+  - intros k x Hk. destruct (Nat.lt_ge_cases k (length (w_hist w))) as [Hlt|Hge].
+    + rewrite nth_error_app1 in Hk by exact Hlt. destruct (wi_pub w HW k x Hk) as [A|A]; [left; apply in_or_app; now left|right; exact A].
+    + rewrite nth_error_app2 in Hk by exact Hge. destruct (k - length (w_hist w))%nat as [|j] eqn:Ej; cbn in Hk; [|destruct j; discriminate].
+      inversion Hk; subst x. left. apply in_or_app. right. left. rewrite (wi_noid w HW). f_equal. lia.
 Qed.
 
 End Inv.
